@@ -1,4 +1,5 @@
 import TsVerif.C06.Props
+import TsVerif.C06.CursorProps
 #print axioms TsVerif.C06.child_spec
 #print axioms TsVerif.C06.flattenKids_length
 #print axioms TsVerif.C06.child_count_spec
@@ -9,3 +10,6 @@ import TsVerif.C06.Props
 #print axioms TsVerif.C06.write_spec
 #print axioms TsVerif.C06.sexp_spec
 #print axioms TsVerif.C06.named_child_spec
+#print axioms TsVerif.C06.cursor_first_child_spec
+#print axioms TsVerif.C06.sibling_internal_spec
+#print axioms TsVerif.C06.cursor_next_sibling_spec
